@@ -1,3 +1,4 @@
 pub mod lex;
 pub mod parse;
 pub mod value;
+pub mod wrap;
